@@ -42,7 +42,7 @@ use ckb_dao_utils::{DaoError, extract_dao_data, pack_dao_data};
 use ckb_db::RocksDB;
 use ckb_db_schema::COLUMNS;
 use ckb_reward_calculator::RewardCalculator;
-use ckb_store::{ChainDB, ChainStore};
+use ckb_store::ChainDB;
 use ckb_traits::{CellDataProvider, EpochProvider, HeaderProvider};
 use ckb_types::{
     bytes::Bytes,
